@@ -348,7 +348,20 @@ class Gen:
         o, i = self.fresh("o"), self.fresh("i")
         params = ["j", "k", "l"][:r.randint(2, 3)]
         sig = ", ".join("%s = %d" % (q, n) for n, q in enumerate(params))
-        out = ["def %s = <* base = %s, m = fn(self, %s) [self->base, %s] *>" % (o, self.intexpr(ctx, 1), sig, ", ".join(params))]
+        depth = r.choice([0, 0, 1, 2, 3])
+        meth = "m = fn(self, %s) [self->base, %s]" % (sig, ", ".join(params))
+        if depth == 0:
+            out = ["def %s = <* base = %s, %s *>" % (o, self.intexpr(ctx, 1), meth)]
+        else:
+            # the method lives `depth` prototype levels above the receiver (which has the field the method reads); a nearer level may override it
+            self.features.add("method:proto%d" % depth)
+            chain = [self.fresh("o") for _ in range(depth)]
+            out = ["def %s = <* %s, base = -1 *>" % (chain[0], meth)]
+            for a, b in zip(chain, chain[1:]):
+                out.append("def %s = <* _proto_ = %s, tag%s = 1 *>" % (b, a, b))
+            out.append("def %s = <* _proto_ = %s, base = %s *>" % (o, chain[-1], self.intexpr(ctx, 1)))
+            if depth >= 2 and r.random() < 0.3:
+                out.append("%s->m = fn(self, %s) [0 - self->base, %s]" % (chain[-1], sig, ", ".join(params)))
         style = r.choice(["named-last", "named-last", "named-shuffled", "mixed", "named-first-only", "positional"])
         self.features.add("method:" + style)
         if style == "named-last":
